@@ -19,6 +19,7 @@ func init() {
 		Assumptions: []string{"sort.Search(n, f) returns an index in [0, n]; Collection.List is sorted by id (C01 R01.4)"},
 		Run:         runC15,
 		Controls: []Control{
+			{Name: "revert-F44-listing-fetched-with-read-mask", File: "pkg/trait/hailpb/model_server.go", Old: "\tsortedItems := m.model.ListHails()\n", New: "\tsortedItems := m.model.ListHails(resource.WithReadMask(request.ReadMask))\n", Expect: "R15.9"},
 			{Name: "token-alphabets-differ", File: "pkg/trait/vendingpb/pages.go", Old: "\t\treturn base64.StdEncoding.EncodeToString(tokenBytes), nil", New: "\t\treturn base64.URLEncoding.EncodeToString(tokenBytes), nil", Expect: "R15.8"},
 			{Name: "waste-token-shadowed", File: "pkg/trait/wastepb/model_server.go", Old: "\t\tstartIndex, _ = strconv.Atoi(pageToken)", New: "\t\tstartIndex, _ := strconv.Atoi(pageToken)", Expect: "R15.4"},
 			{Name: "remove-upper-cap", File: "pkg/trait/hailpb/pages.go", Old: "\tif pageSize > maxPageSize {\n\t\treturn maxPageSize\n\t}\n", New: "", Expect: "R15.1"},
@@ -54,6 +55,7 @@ func runC15(c *an.Ctx) {
 	r014(c, "R15.7")
 	r158(c)
 	c.Min("R15.8", 4)
+	c.Min("R15.9", 5)
 	c.Min("R15.7", 1)
 	c.Min("R15.1", 8)
 	c.Min("R15.2", 10)
@@ -322,6 +324,50 @@ func r15handler(c *an.Ctx, h pagingHandler) {
 			}
 		}
 		return len(an.ValuesAt(v)) > 0
+	}
+	// R15.9: the key that the token and the search rely on is read from COMPLETE items: the listing is not produced
+	// with the request's read mask (a mask that leaves the key out would make every token the empty key: the first
+	// page for ever); the mask is applied to the page that is handed out
+	{
+		masked := false
+		var where ssa.Instruction
+		for _, src := range an.Sources(listing) {
+			call, isCall := src.(*ssa.Call)
+			if !isCall {
+				continue
+			}
+			var walk func(v ssa.Value, depth int)
+			walk = func(v ssa.Value, depth int) {
+				if depth > 4 {
+					return
+				}
+				for _, s0 := range an.Sources(v) {
+					switch x := s0.(type) {
+					case *ssa.Call:
+						if an.CalleeName(x) == an.ModulePath+"/pkg/resource.WithReadMask" || an.CalleeName(x) == an.ModulePath+"/pkg/resource.WithReadPaths" {
+							masked, where = true, x
+						}
+					case *ssa.Slice:
+						an.Instrs(call.Parent(), func(in ssa.Instruction) {
+							if st, ok := in.(*ssa.Store); ok {
+								if ia, isIA := st.Addr.(*ssa.IndexAddr); isIA && ia.X == x.X {
+									walk(st.Val, depth+1)
+								}
+							}
+						})
+					}
+				}
+			}
+			for _, a := range call.Call.Args {
+				walk(a, 0)
+			}
+		}
+		pos := page.Pos()
+		if where != nil {
+			pos = where.Pos()
+		}
+		c.Check(!masked, "R15.9", name+"|the paging key is read from complete items", pos, "the listing is fetched without the read mask",
+			"the listing that is searched and whose last key becomes the page token is fetched WITH the request's read mask: a read_mask that leaves the key field out makes every key empty, so each response carries the same next_page_token and returns the first page again - an endless token chain")
 	}
 	// High = min(next+size, len(listing)), however the selection is spelled
 	okHigh := false
